@@ -15,10 +15,11 @@ CONSTANTS
  Tries = 2
  NextHop = 4 Unstable = 24 CacheTO = 4 Inactive = 8 RemoveDelay = 2 SweepEvery = 2 PingEvery = 3 MaxTime = 1000
  CreateGuard = TRUE
- MaxCircuits = 1 MaxData = 1 MaxLoss = 2 MaxDup = 0 MaxAdv = 0 MaxNow = 40
+ MaxCircuits = 1 MaxData = 0 MaxLoss = 1 MaxDup = 0 MaxAdv = 0 MaxNow = 30
  Goals = {2}
  Origins = {o}
  AdvKinds = {}
+ AdvSrcs = {adv}
  TrackWire = FALSE
  UseIds = FALSE
  NodeTeardown = TRUE
